@@ -1,5 +1,6 @@
 import PoorModel.Response
 import PoorModel.Gen.Reasons
+import PoorProofs.Props.JsonCodec
 /-
 C05 - what a handler returns is what the client receives.
 -/
@@ -118,6 +119,17 @@ theorem C05 : C05_full :=
   ⟨C05_headers _, fun b => C05_str_bytes _ b _ (Or.inl rfl) ks200, fun b => C05_str_bytes _ b _ (Or.inr rfl) ks200,
    fun d => C05_json _ d ks200, C05_none _ ks200, fun cs => C05_iter _ cs _ (Or.inl rfl) ks200, C05_junk _ ks200,
    C05_resp _⟩
+
+/-- **a dict or list is delivered as JSON that decodes to an equal value.**  For every well-formed value `v`
+    (any nesting and size, `{}` and `[]` included, strings with control characters, non-BMP characters and lone
+    surrogates) the handler's value becomes a 200 answer of JSON type whose body is the UTF-8 encoding of
+    `json.dumps(v)`, with the matching length; that body is pure ASCII, and decoding and parsing it gives `v`. -/
+theorem C05_json_value (v : Poor.Json.J) (h : Poor.Json.JOk v) :
+    toResponse Gen.Reasons.table (.json (Poor.Json.dumpBytes v))
+      = .ok ⟨.base, 200, xPoweredBy, jsonType, [Poor.Json.dumpBytes v], (Poor.Json.dumpBytes v).length⟩ ∧
+    Poor.Json.loadBytes (Poor.Json.dumpBytes v) = some v ∧
+    (∀ c ∈ Poor.Json.dump v, c.toNat < 128) :=
+  ⟨C05_json _ _ ks200, JsonCodec.loadBytes_dumpBytes v h, JsonCodec.dumpBytes_ascii v⟩
 
 /-! ### non-vacuity -/
 
